@@ -14,7 +14,7 @@ Definition pred_tab : list (list N) :=
 Definition pred_none : list N := [0;1;0;1;2;0]%N.
 Definition verdict (n : N) : pverdict := match n with 0%N => PFalsy | 1%N => PTruthy | _ => PRaise end.
 Definition use_frames (u : Z) : list frame :=
-  if Z.eqb u 1 then [FDeco] else if Z.eqb u 2 then [FMeth] else [].
+  if Z.eqb u 1 then [FDeco] else if Z.leb 2 u then [FMeth] else [].
 Definition mkp (p : Z) (l : N) (u : Z) : predspec :=
   let row := nth (Z.to_nat p) pred_tab [] in
   let dn := verdict (nth (Z.to_nat p) pred_none 0%N) in
@@ -26,7 +26,7 @@ Definition mkp (p : Z) (l : N) (u : Z) : predspec :=
 
 (* ---- parser of the prefix token encoding of bodies *)
 Definition zb (z : Z) : bool := negb (Z.eqb z 0).
-Fixpoint parse (fuel : nat) (has_orig : bool) (t : list Z) : option (body * list Z) :=
+Fixpoint parse (fuel : nat) (has_orig : option nat) (t : list Z) : option (body * list Z) :=
   match fuel with
   | O => None
   | S f =>
@@ -46,12 +46,16 @@ Fixpoint parse (fuel : nat) (has_orig : bool) (t : list Z) : option (body * list
     | 8%Z :: p :: l :: r => match parse f has_orig r with Some (b, r1) => Some (Filter (mkp p (Z.to_N l) 0) (Z.to_N l) b, r1) | None => None end
     | 9%Z :: p :: a :: l :: r =>
         let arg := if Z.eqb a 0 then ACur else if Z.eqb a 1 then ANew (cls_idx 0) (2000 + Z.to_N l)
-                   else if Z.eqb a 2 then ANone else if has_orig then AObj 0 else ANone in
+                   else if Z.eqb a 2 then ANone else match has_orig with Some i => AObj i | None => ANone end in
         Some (FilterCall (mkp p (Z.to_N l) 0) arg (Z.to_N l), r)
+    | 10%Z :: l :: r => match parse f has_orig r with Some (b, r1) => Some (WithCtx (Z.to_N l) b, r1) | None => None end
+    | 11%Z :: r => Some (Tamper, r)
     | _ => None
     end
   end.
-Definition parse_body (has_orig : bool) (t : list Z) : body :=
+Definition parse_rest (has_orig : option nat) (t : list Z) : list Z :=
+  match parse (S (length t)) has_orig t with Some (_, r) => r | None => [] end.
+Definition parse_body (has_orig : option nat) (t : list Z) : body :=
   match parse (S (length t)) has_orig t with Some (b, _) => b | None => Noop end.
 
 (* ---- printer *)
@@ -102,13 +106,31 @@ Definition run (args : list bytes) : bytes :=
   let z := fun n => nth n zs 0%Z in
   if is_op "sare" op then
     let mode := z 0%nat in let r0 := zb (z 1%nat) in
-    let bd := parse_body (negb (Z.eqb mode 2)) (skipn 4 zs) in
+    let bd := parse_body (if Z.eqb mode 2 then None else Some 0%nat) (skipn 4 zs) in
     if Z.eqb mode 0 then
       let '(s3, st3, outb, out) := with_sare r0 2 (FProg 2) (fun s st => exec bd s st) (enter_orig (z 2%nat) (z 3%nat)) in
       report (pop st3) out (Some (reraise s3)) (is_normal outb)
     else if Z.eqb mode 2 then
       let '(s3, st3, outb, out) := with_sare r0 2 (FProg 2) (fun s st => exec bd s st) st0 in
       report st3 out (Some (reraise s3)) (is_normal outb)
+    else if Z.eqb mode 5 then
+      (* a shared context object: ctx = sare(r0); <pre: earlier uses of ctx under other exceptions>; then
+         try: raise_orig() except: with ctx: body *)
+      let toks := skipn 4 zs in
+      let pre := parse_body None toks in
+      let '(s1, st1, o1) := exec pre (sare_new r0 2 st0) st0 in
+      match o1 with
+      | Raised j => report st1 (Raised j) None false
+      | Normal =>
+          let oid := next st1 in
+          let bd2 := parse_body (Some oid) (parse_rest None toks) in
+          match exec (RaiseOrig (cls_idx (z 2%nat)) (Z.to_N (z 3%nat))) s1 st1 with
+          | (_, st2, Raised i) =>
+              let '(s3, st3, outb, out) := with_same (FProg 2) (fun s st => exec bd2 s st) s1 (push i st2) in
+              report (pop st3) out (Some (reraise s3)) (is_normal outb)
+          | (_, st2, Normal) => lit "BAD"
+          end
+      end
     else if Z.leb 3 mode then
       (* the context object is used again after its with block (what the with raised was caught):
          mode 3: ctx.force_reraise()      mode 4: ctx.capture(); ctx.force_reraise() *)
@@ -130,7 +152,7 @@ Definition run (args : list bytes) : bytes :=
           end
       end
   else if is_op "filter" op then
-    let bd := parse_body false (skipn 2 zs) in
+    let bd := parse_body None (skipn 2 zs) in
     let '(s1, st1, outb) := exec bd (sare_blank 0) st0 in
     let '(_, st2, out) := with_exit FnFiltExit gen_filt_exit (mkp (z 0%nat) 2 (z 1%nat)) (FProg 2) s1 st1 outb in
     report st2 out None (is_normal outb)
@@ -139,12 +161,12 @@ Definition run (args : list bytes) : bytes :=
     let st := if active then enter_orig (z 4%nat) (z 5%nat) else st0 in
     let a := z 2%nat in
     let arg := if Z.eqb a 0 then ACur else if Z.eqb a 1 then ANew (cls_idx 0) 2002
-               else if Z.eqb a 2 then ANone else if active then AObj 0 else ANone in
+               else if Z.eqb a 2 then ANone else if active then AObj 0%nat else ANone in
     let '(_, st1, out) := exec (FilterCall (mkp (z 0%nat) 2 (z 1%nat)) arg 2) (sare_blank 0) st in
     report (if active then pop st1 else st1) out None false
   else if is_op "rpoe" op then
     let rm := z 0%nat in
-    let bd := parse_body false (skipn 1 zs) in
+    let bd := parse_body None (skipn 1 zs) in
     let '(_, st1, outb) := exec bd (sare_blank 0) st0 in
     let '(st2, out) := rpoe_exit (if Z.eqb rm 2 then Some (cls_idx 0) else if Z.eqb rm 3 then Some (cls_idx 2) else None)
                                  (FProg 2) st1 outb in
